@@ -84,7 +84,7 @@ Theorem C01_qpq_counts_terminate_partial : forall A cfg pr fuel, NoDup (map pc_c
 Proof. exact qpq_count_terminates. Qed.
 Print Assumptions C01_qpq_counts_terminate_partial.
 
-(* THE NUMBER OF WINNERS (second clause): a wigm or wigm-prf count (without sure-loser batches; Fixed, integer or Guarded with
+(* THE NUMBER OF WINNERS (second clause; wigm, wigm-prf, scotland and cfer below): a wigm or wigm-prf count (without sure-loser batches; Fixed, integer or Guarded with
    guard 0; the driver hands the count the profile's own ballot count) that ends normally has elected exactly
    min(seats, candidates that are not withdrawn).  Upper bound: C09's seat-bound theorem.  Lower bound: nobody is excluded
    unless more candidates are still in the running than there are seats, and the closing step elects the remaining
@@ -106,6 +106,18 @@ Theorem C01_exact_number_of_winners_scotland_partial : forall A S (ZL : zlike A 
   nlen (electeds A s) = Z.min (cf_nseats cfg) (nlen (eligibles A s)).
 Proof. exact count_winners_scotland. Qed.
 Print Assumptions C01_exact_number_of_winners_scotland_partial.
+
+(* ... and the CfER rule without sure-loser batches (rule name "cfer"; "cfer-batch" sets cf_batch): it excludes one candidate
+   at a time and only while more candidates are in the running than seats, and each of its three exits -- everybody fits in
+   round 1, the seats are filled, everybody left fits after an exclusion -- elects enough (Proofs/WinnersCfer.v) *)
+From Droop Require Import Proofs.WinnersCfer.
+Theorem C01_exact_number_of_winners_cfer_partial : forall A S (ZL : zlike A S) cfg,
+  cf_method cfg = MWigm -> exact A = false -> 0 <= cf_nballots cfg -> 0 <= cf_nseats cfg ->
+  forall pr fuel s k, cf_batch cfg = false -> wf_profile pr -> cf_nballots cfg = ballot_total pr ->
+  exec (@crashed A) fuel (count_cmd A cfg RCfer) (init_state A cfg pr) = Some (s, k) -> k <> Abort ->
+  nlen (electeds A s) = Z.min (cf_nseats cfg) (nlen (eligibles A s)).
+Proof. exact count_winners_cfer. Qed.
+Print Assumptions C01_exact_number_of_winners_cfer_partial.
 
 (* NO WITHDRAWN CANDIDATE IS CREDITED WITH A VOTE (third clause), at the end of every count that ends without a crash:
    the Gregory family (part of the whole-run invariant of C02/C06) and meek / warren (candidates that are neither hopeful
